@@ -22,7 +22,7 @@ SECT_I = ["Ntoks", "Ntext", "Nmap", "Ltoks", "Ltext", "Lmap", "warn", "Ncols", "
 M_NTOK, M_NTEXT, M_NMAP, M_LTOK, M_LTEXT, M_LMAP, M_WARN, M_FUEL, M_WF, M_KNOWN, M_CMN, M_CML, M_CIN, M_CIL, \
     M_EWARN, M_PATHS, M_EXPN, M_EXPL, M_NUMS = range(19)
 
-KNOWN_IDS = {13: "D13", 14: "D14", 15: "D15", 17: "D17", 23: "D23", 24: "D24", 25: "D25", 26: "D26", 27: "D27"}
+KNOWN_IDS = {13: "D13", 14: "D14", 15: "D15", 17: "D17", 23: "D23", 24: "D24", 25: "D25", 26: "D26", 27: "D27", 28: "D28"}
 
 RUNS = os.path.join(CACHE, "css_runs")
 
@@ -454,6 +454,7 @@ def analyse_all(cases, stats):
     viol = {p: [] for p in PROPS}          # candidate violations (unshrunk), at most 8 each
     known_hits = {p: collections.Counter() for p in PROPS}
     samples = []
+    drift = []
     cat_clean = collections.Counter()
 
     def add_v(pid, what, c, extra=None):
@@ -518,6 +519,10 @@ def analyse_all(cases, stats):
         if not text_eq and not tok_eq:
             if wf and not known and conf_impl:
                 agg["harmless_drift"] += 1
+                if len(drift) < 5:
+                    drift.append({"css": unq(c.css[1:-1]), "opts": o, "impl_normal": unq(i[1][1:-1])[:1500],
+                                  "model_normal": unq(m[M_NTEXT][1:-1])[:1500], "impl_low": unq(i[4][1:-1])[:500],
+                                  "model_low": unq(m[M_LTEXT][1:-1])[:500]})
             elif not wf:
                 agg["malformed_disagree"] += 1
                 if len(viol["C08"]) < 8 and agg["malformed_disagree"] <= 3:
@@ -553,7 +558,7 @@ def analyse_all(cases, stats):
             what, src, want, got, in_known = b
             if in_known:
                 known_hits["C10"]["D16"] += 1
-            elif wf and any(k in known for k in (15, 24)):
+            elif wf and any(k in known for k in (15, 24, 28)):
                 known_hits["C10"]["D15/D24 (token re-lexed)"] += 1
             else:
                 add_v("C10", "%s: source %s expected %s printed %s" % (what, src, want, got), c)
@@ -629,20 +634,20 @@ def analyse_all(cases, stats):
         if bad19:
             if not wf:
                 agg["c19_bad_on_malformed"] += 1
-            elif any(k in known for k in (15, 24)) or 'Ident("")' in "":
+            elif any(k in known for k in (15, 24, 27, 28)):
                 known_hits["C19"]["D15/D24 (token re-lexed)"] += 1
             else:
                 add_v("C19", bad19[0], c, {"all": bad19[:5]})
         if not map_eq and not bad19 and wf and text_eq:
-            add_v("C19", "source map differs from the model although the text agrees", c,
-                  {"impl_map": i[2][:1500], "model_map": m[M_NMAP][:1500]})
+            # the map differs from the model's but every entry passes the direct check: drift, no alarm
+            agg["c19_map_drift_entries_still_correct"] += 1
 
         if idx % max(1, len(cases) // 6) == 0 and len(samples) < 6:
             samples.append({"css": unq(c.css[1:-1])[:400], "opts": o, "normal": unq(i[1][1:-1])[:400],
                             "low": unq(i[4][1:-1])[:200], "warnings": i[6], "wf": wf, "known_classes": kn})
 
     return {"agg": dict(agg), "viol": viol, "known_hits": {p: dict(v) for p, v in known_hits.items()},
-            "samples": samples, "stats": stats, "clean_by_category": dict(cat_clean)}
+            "samples": samples, "stats": stats, "clean_by_category": dict(cat_clean), "drift_examples": drift}
 
 
 def load_run(res):
@@ -718,6 +723,7 @@ def merge_runs(a, b):
     a["known_hits"] = _merge_counts(a["known_hits"], b["known_hits"])
     a["stats"] = _merge_counts(a["stats"], b["stats"])
     a["clean_by_category"] = _merge_counts(a["clean_by_category"], b["clean_by_category"])
+    a["drift_examples"] = (a.get("drift_examples", []) + b.get("drift_examples", []))[:5]
     return a
 
 
@@ -835,6 +841,10 @@ def css_check(res, pid, theorems, relevant_counters, rule):
     for k in ("token_kinds", "at_rules", "option_sets", "categories", "max_depth_hist", "features", "total_tokens"):
         if k in st:
             res.notes["input_" + k] = st[k]
+    if d.get("drift_examples"):
+        res.notes["drift_examples (model differs, specification holds)"] = d["drift_examples"]
+        log("note: %d inputs on which the implementation differs from the model but conforms to the specification; "
+            "first: %r" % (agg.get("harmless_drift", 0), d["drift_examples"][0]["css"][:200]))
     res.notes["run_cached"] = d.get("cached", False)
     res.notes["timing"] = d.get("timing", {})
     res.assumptions += [
